@@ -16,6 +16,7 @@ shutil.copytree("/verif/harness", h, ignore=shutil.ignore_patterns("target"))
 ct = open(os.path.join(h, "Cargo.toml")).read().replace('path = "/repo"', f'path = "{wt}"')
 open(os.path.join(h, "Cargo.toml"), "w").write(ct)
 subprocess.run(["git", "-C", wt, "checkout", "--", "."], check=True)
+subprocess.run(["git", "-C", wt, "checkout", "-q", "--detach", "main"], check=True)  # always the current /repo HEAD
 r = subprocess.run(["git", "-C", wt, "apply", patch])
 if r.returncode != 0:
     print("PATCH DOES NOT APPLY"); sys.exit(3)
